@@ -1,7 +1,7 @@
 (* C13 -- property theorems only.  Proofs live in C13/Proofs*.v. *)
 From Coq Require Import NArith List Sorted.
 From DV Require Import Base.Outcome Base.Bytes Base.Lex Base.Names C11.Sha C13.Gen C13.Model
-  C13.ProofsBitmap C13.ProofsNames C13.ProofsNsec2 C13.ProofsDeny C13.ProofsGroups C13.ProofsN3c C13.ProofsN3d C13.ProofsN3e C13.ProofsN3f C13.ProofsDedup.
+  C13.ProofsBitmap C13.ProofsNames C13.ProofsNsec2 C13.ProofsDeny C13.ProofsGroups C13.ProofsN3c C13.ProofsN3d C13.ProofsN3e C13.ProofsN3f C13.ProofsDedup C13.ProofsTtl C13.ModelLabel C13.ProofsLabel C13.ProofsIter.
 Import ListNotations.
 Local Open Scope N_scope.
 
@@ -114,3 +114,49 @@ Theorem C13_sorted_records_keep_types : forall l o x,
   has_type (strip (sr_dedup l)) o x <-> has_type (strip l) o x.
 Proof. exact sorted_records_keep_types. Qed.
 Print Assumptions C13_sorted_records_keep_types.
+
+Theorem C13_nsec_ttl_class_erasure : forall apex dk z out, generate_nsecs_t apex dk z = Ok out ->
+  generate_nsecs apex dk (map trec_strip z) = Ok (map tn_rec out).
+Proof. exact nsec_t_erasure. Qed.
+Print Assumptions C13_nsec_ttl_class_erasure.
+
+Theorem C13_nsec_ttl_class_from_soa : forall apex dk z out, generate_nsecs_t apex dk z = Ok out ->
+  forall x, In x out ->
+  exists s, In s z /\ t_type s = 6 /\ tn_ttl x = N.min (t_min s) (t_ttl s) /\ tn_class x = t_class s.
+Proof. exact nsec_t_ttl_class. Qed.
+Print Assumptions C13_nsec_ttl_class_from_soa.
+
+Theorem C13_nsec_no_panic_uniform_ttl : forall apex dk z,
+  rrset_ttls_uniform z -> no_panic (generate_nsecs_t apex dk z).
+Proof. exact nsec_t_no_panic. Qed.
+Print Assumptions C13_nsec_no_panic_uniform_ttl.
+
+Theorem C13_nsec_mixed_ttl_rrset_panics :
+  exists apex dk z, zone_sorted (map trec_strip z) /\ generate_nsecs_t apex dk z = Panic 7.
+Proof. exact nsec_mixed_ttl_rrset_panics. Qed.
+Print Assumptions C13_nsec_mixed_ttl_rrset_panics.
+
+Theorem C13_sorted_records_sorted_and_complete : forall l,
+  zone_sorted (strip (sorted_records l)) /\
+  forall o x, has_type (strip (sorted_records l)) o x <-> has_type (strip l) o x.
+Proof. intros l. split; [apply sorted_records_sorted|apply sorted_records_types]. Qed.
+Print Assumptions C13_sorted_records_sorted_and_complete.
+
+Theorem C13_sorted_records_nsec_end_to_end : forall l apex dk out,
+  generate_nsecs apex dk (strip (sorted_records l)) = Ok out ->
+  (forall n, auth_name apex (strip l) n <-> exists r, In r out /\ name_eqb (n_owner r) n = true) /\
+  StronglySorted (fun a b => name_cmp (n_owner a) (n_owner b) = Lt) out /\
+  (out <> [] -> map n_next out = tl (map n_owner out) ++ [apex]).
+Proof. exact sorted_records_nsec_owners. Qed.
+Print Assumptions C13_sorted_records_nsec_end_to_end.
+
+Theorem C13_nsec3_owner_label_roundtrip : forall h apex, Forall (fun b => b < 256) h ->
+  exists l, nsec3_owner_label h = Ok l /\ c13_label h apex = Ok (l :: apex, h).
+Proof. exact nsec3_label_roundtrip. Qed.
+Print Assumptions C13_nsec3_owner_label_roundtrip.
+
+Theorem C13_bitmap_iter_exact : forall ts, Forall (fun x => x < 65536) ts ->
+  exists l, bm_iter (bm_finalize (bm_adds [] ts)) = Ok l /\ StronglySorted N.lt l /\
+    forall t, t < 65536 -> (In t l <-> In t ts).
+Proof. exact bitmap_iter_exact. Qed.
+Print Assumptions C13_bitmap_iter_exact.
